@@ -179,25 +179,30 @@ def run_histories(ctx, nh, flavour="plain"):
 
 # ------------------------------------------------------------------ C18: prefix / probe differential
 def probe_script(rng, prec):
-    n = rng.choice([3, 5, 9, 14])
+    """-> (setup part, call line or None, query line or None).  A probe with caller workspace gets its size from the library's own
+    estimate (lwork=-1 query in a fresh process, stage 0 of run_differential) times a small headroom, so that stale accounting left
+    behind by earlier user-workspace calls matters."""
+    n = rng.choice([3, 5, 9, 14, 30, 60])
     M = G.random_matrix(rng, n, rng.choice(["random", "band", "grid"]), "float")
     M.vals = new_values(rng, M)
     if prec == "s": G.round_single(M)
     b = rand_rhs(rng, n, prec == "s")
-    drv = rng.choice(["gssv", "gssvx"])
+    drv = rng.choice(["gssv", "gssvx", "gssvx_user", "gssvx_user"])
     s = G.script_mat(0, M, single=(prec == "s")) + G.script_rhs(0, n, 1, n, [b], False, prec == "s") + "permc_get 0 %d\n" % rng.randint(0, 3)
     if drv == "gssv":
-        s += "gssv 0 0 1\n"
-    else:
-        s += "gssvx 0 0 1 %d %d 0 0 0x1p+0 8 4 0 %d\n" % (rng.choice([0, 1]), rng.choice([0, 1]), rng.choice([0, 0, 400000]))
-    return s
+        return s, "gssv 0 0 1\n", None, None
+    fact, trans = rng.choice([0, 1]), rng.choice([0, 1])
+    if drv == "gssvx":
+        return s, "gssvx 0 0 1 %d %d 0 0 0x1p+0 8 4 0 %d\n" % (fact, trans, rng.choice([0, 0, 8000000])), None, None
+    call = "gssvx 0 0 1 %d %d 0 0 0x1p+0 8 4 0 " % (fact, trans)
+    return s, call, call + "-1\n", rng.choice([1.25, 1.5, 2.0, 3.0])
 
 
 def prefix_script(rng, prec):
     parts = []
     for _ in range(rng.randint(1, 3)):
-        kind = rng.choice(["other_size", "singular", "illegal", "query", "userwork", "history", "destroy"])
-        n = rng.choice([2, 4, 7, 11, 20])
+        kind = rng.choice(["other_size", "singular", "illegal", "query", "userwork", "userwork", "userwork_big", "history", "destroy"])
+        n = rng.choice([2, 4, 7, 11, 20]) if kind != "userwork_big" else rng.choice([40, 80, 120])
         M = G.random_matrix(rng, n, None, "float"); M.vals = new_values(rng, M)
         if prec == "s": G.round_single(M)
         b = rand_rhs(rng, n, prec == "s")
@@ -214,6 +219,9 @@ def prefix_script(rng, prec):
             parts.append(base + "gssvx 1 1 1 0 0 0 0 0x1p+0 4 2 0 -1\n")
         elif kind == "userwork":
             parts.append(base + "gssvx 1 1 %d 0 0 0 0 0x1p+0 4 2 0 600000\ndestroy\n" % rng.choice([1, 2]))
+        elif kind == "userwork_big":
+            # a larger factorization in its own caller buffer, kept (no destroy) or destroyed
+            parts.append(base + "gssvx 1 1 %d 0 0 0 0 0x1p+0 4 2 0 64000000\n%s" % (rng.choice([1, 2]), rng.choice(["", "destroy\n"])))
         elif kind == "history":
             parts.append(base + "gssvx 1 1 2 0 0 0 0 0x1p+0 4 2 0 0\ngssvx 1 1 2 0 0 1 1 0x1p+0 4 2 0 0\ngssvx 1 1 1 2 1 0 0 0x1p+0 4 2 0 0\n")
         else:
@@ -225,12 +233,32 @@ def run_differential(ctx, npairs, flavour="plain"):
     C.build_lib(flavour)
     exes = C.build_harness_all_prec("h_drv.c", flavour, precs="ds")
     rng = random.Random(ctx.seed * 524287 + 18)
-    jobs = []
+    from concurrent.futures import ThreadPoolExecutor
+    pre = []
     for i in range(npairs):
         prec = rng.choice("ds")
-        probe = probe_script(rng, prec)
+        setup, call, query, headroom = probe_script(rng, prec)
         prefix = prefix_script(rng, prec)
         head = "ienv %d %d 200 200 100 -50 -50 -30\n" % (rng.choice([1, 8]), rng.choice([1, 6]))
+        pre.append((prec, head, setup, call, query, headroom, prefix))
+    # stage 0: workspace estimates for the probes that bring their own buffer
+    def est(j):
+        prec, head, setup, call, query, headroom, prefix = j
+        if query is None: return None
+        ops, done, rc, err = D.run_script(exes[prec], head + setup + query + "quit\n", timeout=120)
+        g = [o for o in ops if o.get("op") == "gssvx"]
+        return g[-1]["mem"][1] if (rc == 0 and g and "mem" in g[-1]) else None
+    with ThreadPoolExecutor(C.NPROC) as ex:
+        ests = list(ex.map(est, pre))
+    jobs = []
+    tight = 0
+    for (prec, head, setup, call, query, headroom, prefix), e in zip(pre, ests):
+        if query is not None:
+            if not e or e <= 0:
+                call = call + "8000000\n"
+            else:
+                call = call + "%d\n" % int(e * headroom); tight += 1
+        probe = setup + call
         jobs.append((prec, head + probe + "quit\n", head + prefix + probe + "quit\n", prefix))
     from concurrent.futures import ThreadPoolExecutor
     def one(j):
@@ -239,7 +267,7 @@ def run_differential(ctx, npairs, flavour="plain"):
         return (j, ra, rb)
     with ThreadPoolExecutor(C.NPROC) as ex:
         outs = list(ex.map(one, jobs))
-    stats = {"pairs": npairs, "compared": 0, "prefix_crashed": 0}
+    stats = {"pairs": npairs, "compared": 0, "prefix_crashed": 0, "probes_with_estimate_sized_workspace": tight, "probe_alone_not_successful": 0}
     viol = []
     def sig(res):
         return (res.get("info"), tuple(res.get("perm_r", [])), tuple(res.get("perm_c", [])), tuple(res.get("X", [])), lu_signature(res),
@@ -247,6 +275,10 @@ def run_differential(ctx, npairs, flavour="plain"):
     for (prec, a, b, prefix), (oa, da, rca, ea), (ob, db, rcb, eb) in outs:
         blob = {"prec": prec, "probe_alone": a, "prefix_then_probe": b}
         if rca != 0 or not da or not oa:
+            if "gssvx 0 0 1" in a and not a.rstrip().split("\n")[-2].endswith(" 0"):
+                # a caller buffer sized from the estimate turned out too small even in a fresh process: not a statement about histories
+                # (insufficient buffers are C14's subject)
+                stats["probe_alone_not_successful"] += 1; continue
             viol.append(("probe-crash", "probe alone failed rc=%s" % rca, blob)); continue
         if rcb != 0 or not db or not ob:
             stats["prefix_crashed"] += 1
